@@ -45,7 +45,7 @@ CFG = {
                   "(the recursive render without the root window), zorder_is_spec, render_clip, render_last_wins, paint_structure, child_window_clip. "
                   "Round 3: src_guards_strict now also states that each Text/RichText draw function allocates NewSurface(size.Width, size.Height) (interpreted arguments), "
                   "facts_ellipsis_cond. Witness/F39-F42, F114 prove that the uint16 / non-strict / un-clipped variants (the code before the fixes) fail. "
-                  "ROUND 4: Props.C14Body (30 theorems) - the bodies of NewSurface, NewSubSurface, AddChild, WriteCell, Fill, HasUnboundedWidth/Height, Surface.render, Center.Draw, "
+                  "ROUND 4: Props.C14Body (28 theorems) - the bodies of NewSurface, NewSubSurface, AddChild, WriteCell, Fill, HasUnboundedWidth/Height, Surface.render, Center.Draw, "
                   "Text/RichText findContainerSize (soft and hard), Text/RichText drawSoftwrap, Text/RichText Draw (hard wrap, with the ellipsis branch), Button.Draw and TextField.Draw, REGENERATED from the source each run (Gen/SurfaceBodies) and EXECUTED by the statement "
                   "interpreter Model/SurfExec, equal the hand-written model for all inputs (*_body_eq_model; render with the recursive calls being the model - the model is the fixed point of the "
                   "body - and with the receiver's Children left sorted IN PLACE); composed: the executed drawSoftwrap / Draw = Layout.drawText in the soft- / hard-wrap mode of the source. "
